@@ -425,7 +425,10 @@ def random_ledger(rng, n, direct=True, start=datetime.date(2020, 1, 1), accounts
     """A seeded random abstract ledger of about `n` directives in date order: opens first (some with metadata,
     currencies, booking), commodities (some with metadata of every value type), transactions with 1..4 postings
     (costs with / without date and label, prices, flags, posting metadata, duplicate sibling accounts, tags, links),
-    closes, pads followed by balance assertions, notes, events, documents, queries, prices, customs.
+    closes, pads followed by balance assertions, notes, events, documents, queries, prices, customs.  Some accounts
+    are opened / closed and some currencies declared by MORE THAN ONE directive (Beancount reports these and keeps every
+    directive): a later commodity directive with other metadata, a further open directive dated before / on / after the
+    first one (listed after it: date order only holds after loading), a further close directive.
 
     direct=True  : uses everything the data constructors accept (postings with meta None, null metadata values,
                    tags None, transactions that do not balance) -- meant for build_entries();
@@ -480,6 +483,22 @@ def random_ledger(rng, n, direct=True, start=datetime.date(2020, 1, 1), accounts
         guard += 1
         r = rng.random()
         live = [a for a in (opened if not direct else accounts) if a not in closed] or opened
+        if rng.random() < 0.07:
+            # one more directive for an account / a currency that (most probably) has one already
+            which = rng.random()
+            if which < 0.5:
+                out.append({'k': 'commodity', 'date': next_date(), 'meta': meta(user_meta(0.8)),
+                            'currency': rng.choice(CURRENCIES)})
+            elif which < 0.8:
+                when = rng.choice([start.toordinal() - rng.randint(1, 20), start.toordinal(), next_date()])
+                out.append({'k': 'open', 'date': when, 'meta': meta(user_meta(0.7)), 'account': rng.choice(opened),
+                            'currencies': sorted(rng.sample(CURRENCIES, rng.randint(0, 2))) if direct else [],
+                            'booking': []})
+            elif closed - {'Assets:Never:Opened'}:
+                a = rng.choice(sorted(closed - {'Assets:Never:Opened'}))
+                when = next_date() if rng.random() < 0.6 else start.toordinal() + rng.randint(0, 3)
+                out.append({'k': 'close', 'date': when, 'meta': meta(user_meta(0.5)), 'account': a})
+            continue
         if r < 0.55:
             npost = rng.choice([1, 2, 2, 2, 3, 4]) if direct else rng.choice([2, 2, 3])
             cur = rng.choice(['USD', 'EUR'])
